@@ -43,7 +43,7 @@ def _verify_one(idx):
             res, path = replay(C, ob.get("model"), tag)
             ob["replay"] = dict(path=path, reproduced=res.get("reproduced"), skipped=res.get("skipped"), why=res.get("why"), lifted=res.get("lifted"),
                                 error=res.get("error"), observed=res.get("observed"), expected=res.get("expected"), inputs=res.get("inputs"))
-            if res.get("reproduced") is False:
+            if res.get("reproduced") is not True and not res.get("skipped"):
                 need_enum = True
     if getattr(C.cls, "abstract_callees", False):
         need_enum = False
@@ -203,8 +203,10 @@ def main(argv):
                 ob["note"] = "counter-model did not reproduce on the real code (abstraction artefact): treated as undecided"
                 undecided.append(ob)
             else:
-                ob["status"] = "error"
-                crashed.append(ob)
+                # the replay itself could not be run to completion (time-out under load, ...): no verdict from this model
+                ob["status"] = "undecided"
+                ob["note"] = "the counter-model could not be replayed (%s): treated as undecided" % str(rp.get("error"))[:200]
+                undecided.append(ob)
         elif st in ("undecided", "out-of-reach", "vacuous"):
             undecided.append(ob)
 
